@@ -15,6 +15,7 @@ Layout of every TLS harness::
 * ``Relay`` owns both ciphertext directions as byte queues.  It is stepped from ``world.env`` (= at every ``select()`` of
   the loop / of the blocking transport) and there decides, through a *policy* (default: deliver everything available), how
   many bytes go on; it can fragment, hold back, and cut the peer->library stream at a byte offset (raw EOF).
+* ``FakeSocketLink``: the same relay under the REAL asyncio socket adapter on a ``world.FakeSocket`` (second configuration).
 * The blocking ``SSLStreamTransport`` needs a real fd: the library gets one end of a real ``socket.socketpair()``; the relay
   holds the other end non-blocking and is pumped inside ``VSelector.select()`` (single thread); readiness of the library's
   fd is then polled for real by ``World._ready`` (``select.select(..., 0)``).
@@ -457,6 +458,44 @@ class AsyncLink:
         pass
 
 
+class FakeSocketLink:
+    """The library's leaf is the REAL asyncio socket adapter (``backend.wrap_stream_socket``) on a ``world.FakeSocket``:
+    the relay writes into the socket's rx pipe and drains its tx pipe at every step."""
+
+    def __init__(self, relay: "Relay", sock: Any) -> None:
+        self.relay = relay
+        self.sock = sock
+
+    def poll(self) -> None:
+        q = self.sock.tx.q
+        if q:
+            self.relay.lib_sent(bytes(q))
+            del q[:]
+        if (self.sock.closed_flag or self.sock.shut_wr) and not self.relay.lib_closed:
+            self.relay.lib_close()
+
+    def deliver(self, data: bytes) -> int:
+        if self.sock.closed_flag:
+            return len(data)
+        self.sock.rx.put(data)
+        return len(data)
+
+    def deliver_eof(self, full: bool) -> None:
+        self.sock.rx.eof = True
+        if full:
+            self.sock.tx.error = BrokenPipeError(errno.EPIPE, "Broken pipe")
+
+    def lib_waiting(self, sel: Any) -> bool:
+        try:
+            fd = socket.socket.fileno(self.sock)
+            return any(key.fd == fd and key.events & selectors.EVENT_READ for key in sel.get_map().values())
+        except Exception:
+            return False
+
+    def close(self) -> None:
+        pass
+
+
 class BlockingLink:
     """Real ``socket.socketpair()``: ``lib_sock`` goes to SSLStreamTransport, the relay keeps the other end non-blocking."""
 
@@ -464,6 +503,7 @@ class BlockingLink:
         self.relay = relay
         self.lib_sock, self.sock = socket.socketpair()
         self.sock.setblocking(False)
+        self.lib_fd = self.lib_sock.fileno()  # ssl.wrap_socket() detaches lib_sock and keeps this very descriptor
         self.closed = False
         self.lib_reset = False
         self.short_sends = 0
@@ -507,6 +547,16 @@ class BlockingLink:
                 self.sock.shutdown(socket.SHUT_WR)
             except OSError:
                 pass
+
+    def lib_fd_closed(self) -> bool:
+        """The library released its descriptor (checked directly: after a full cut the relay end is gone and cannot see
+        the EOF).  Single thread, and the harness opens no descriptor between the library's close and this call, so the
+        number cannot have been reused."""
+        try:
+            os.fstat(self.lib_fd)
+        except OSError:
+            return True
+        return False
 
     def lib_waiting(self, sel: Any) -> bool:
         try:
